@@ -122,8 +122,8 @@ theorem heapOk_putPar_con {w : World} (h : HeapOk w) {i : ObjId} {q : Par} {c : 
       simpa using hacc
   · exact h j hj'
 
-theorem aliasConstraints_heapOk (w : World) (i1 i2 : ObjId) (h : HeapOk w) : HeapOk (aliasConstraints w i1 i2).w := by
-  simp only [aliasConstraints]
+theorem aliasConstraintsL_heapOk (w : World) (i1 i2 : ObjId) (h : HeapOk w) : HeapOk (aliasConstraintsL w i1 i2).w := by
+  simp only [aliasConstraintsL]
   split
   · exact h
   · split
@@ -139,6 +139,12 @@ theorem aliasConstraints_heapOk (w : World) (i1 i2 : ObjId) (h : HeapOk w) : Hea
         · rename_i q1 hq1
           exact heapOk_putPar_con (heapOk_putPar_con h hq2) hq1
     · exact h
+
+
+theorem aliasConstraints_heapOk (w : World) (i1 i2 : ObjId) (h : HeapOk w) : HeapOk (aliasConstraints w i1 i2).w := by
+  rcases aliasConstraints_cases w i1 i2 with h' | h' <;> rw [h']
+  · exact h
+  · exact aliasConstraintsL_heapOk w i1 i2 h
 
 theorem heapOk_of_heap_eq {w W : World} (e : W.heap = w.heap) (h : HeapOk w) : HeapOk W := by
   intro i hi; rw [e] at hi ⊢; exact h i hi
@@ -462,11 +468,11 @@ theorem shareParameters_narrow : ∀ (src : List ObjId) (w : World) (l : List Ob
     · exact (shareParameter_narrow w l i).trans (shareParameters_narrow rest _ _)
 
 /-- the constraint part of the pair form, exactly: `aliasConSpec` on the two parameters, nothing else -/
-theorem aliasConstraints_spec {w : World} {i1 i2 : ObjId} (hne : i1 ≠ i2) (ok : (aliasConstraints w i1 i2).err = none) :
-    ((aliasConstraints w i1 i2).w.heap.get i1).con = (aliasConSpec (w.heap.get i1).con (w.heap.get i2).con).1 ∧
-    ((aliasConstraints w i1 i2).w.heap.get i2).con = (aliasConSpec (w.heap.get i1).con (w.heap.get i2).con).2 ∧
-    (∀ j, j ≠ i1 → j ≠ i2 → (aliasConstraints w i1 i2).w.heap.get j = w.heap.get j) ∧
-    (aliasConstraints w i1 i2).w.heap.next = w.heap.next := by
+theorem aliasConstraintsL_spec {w : World} {i1 i2 : ObjId} (hne : i1 ≠ i2) (ok : (aliasConstraintsL w i1 i2).err = none) :
+    ((aliasConstraintsL w i1 i2).w.heap.get i1).con = (aliasConSpec (w.heap.get i1).con (w.heap.get i2).con).1 ∧
+    ((aliasConstraintsL w i1 i2).w.heap.get i2).con = (aliasConSpec (w.heap.get i1).con (w.heap.get i2).con).2 ∧
+    (∀ j, j ≠ i1 → j ≠ i2 → (aliasConstraintsL w i1 i2).w.heap.get j = w.heap.get j) ∧
+    (aliasConstraintsL w i1 i2).w.heap.next = w.heap.next := by
   have hp : ∀ (p : Par) (c : Con) (q : Par), parSetConstraint p c = .ok q → q = { p with con := some c } := by
     intro p c q h
     simp only [parSetConstraint] at h
@@ -477,15 +483,15 @@ theorem aliasConstraints_spec {w : World} {i1 i2 : ObjId} (hne : i1 ≠ i2) (ok 
   | none =>
     cases h2 : (w.heap.get i2).con with
     | none =>
-      have : aliasConstraints w i1 i2 = { w := w } := by simp [aliasConstraints, h1, h2]
+      have : aliasConstraintsL w i1 i2 = { w := w } := by simp [aliasConstraintsL, h1, h2]
       rw [this]; simp [aliasConSpec, h1, h2]
     | some c2 =>
       cases hq : parSetConstraint (w.heap.get i1) c2 with
       | error e =>
-        have : aliasConstraints w i1 i2 = { w := w, err := some e } := by simp [aliasConstraints, h1, h2, hq]
+        have : aliasConstraintsL w i1 i2 = { w := w, err := some e } := by simp [aliasConstraintsL, h1, h2, hq]
         rw [this] at ok; cases ok
       | ok q =>
-        have : aliasConstraints w i1 i2 = { w := w.putPar i1 q } := by simp [aliasConstraints, h1, h2, hq]
+        have : aliasConstraintsL w i1 i2 = { w := w.putPar i1 q } := by simp [aliasConstraintsL, h1, h2, hq]
         rw [this]
         have := hp _ _ _ hq
         subst this
@@ -493,33 +499,72 @@ theorem aliasConstraints_spec {w : World} {i1 i2 : ObjId} (hne : i1 ≠ i2) (ok 
   | some c1 =>
     cases h2 : (w.heap.get i2).con with
     | none =>
-      have : aliasConstraints w i1 i2 = { w := w } := by simp [aliasConstraints, h1, h2]
+      have : aliasConstraintsL w i1 i2 = { w := w } := by simp [aliasConstraintsL, h1, h2]
       rw [this]; simp [aliasConSpec, h1, h2]
     | some c2 =>
       by_cases hcc : c1 = c2
       · subst hcc
-        have : aliasConstraints w i1 i2 = { w := w } := by simp [aliasConstraints, h1, h2]
+        have : aliasConstraintsL w i1 i2 = { w := w } := by simp [aliasConstraintsL, h1, h2]
         rw [this]; simp [aliasConSpec, h1, h2]
       · cases hq2 : parSetConstraint (w.heap.get i2) (Con.inter c2 c1) with
         | error e =>
-          have : aliasConstraints w i1 i2 = { w := w, err := some e } := by simp [aliasConstraints, h1, h2, hcc, hq2]
+          have : aliasConstraintsL w i1 i2 = { w := w, err := some e } := by simp [aliasConstraintsL, h1, h2, hcc, hq2]
           rw [this] at ok; cases ok
         | ok q2 =>
           cases hq1 : parSetConstraint ((w.putPar i2 q2).heap.get i1) (Con.inter c2 c1) with
           | error e =>
-            have : aliasConstraints w i1 i2 = { w := w.putPar i2 q2, err := some e } := by
-              simp only [aliasConstraints, h1, h2, ne_eq, hcc, not_false_eq_true, if_true, hq2, hq1]
+            have : aliasConstraintsL w i1 i2 = { w := w.putPar i2 q2, err := some e } := by
+              simp only [aliasConstraintsL, h1, h2, ne_eq, hcc, not_false_eq_true, if_true, hq2, hq1]
             rw [this] at ok; cases ok
           | ok q1 =>
-            have : aliasConstraints w i1 i2 = { w := (w.putPar i2 q2).putPar i1 q1 } := by
-              simp only [aliasConstraints, h1, h2, ne_eq, hcc, not_false_eq_true, if_true, hq2, hq1]
+            have : aliasConstraintsL w i1 i2 = { w := (w.putPar i2 q2).putPar i1 q1 } := by
+              simp only [aliasConstraintsL, h1, h2, ne_eq, hcc, not_false_eq_true, if_true, hq2, hq1]
             rw [this]
             have e2 := hp _ _ _ hq2
             have e1 := hp _ _ _ hq1
             subst e2 e1
             refine ⟨by simp [aliasConSpec, hcc], by simp [aliasConSpec, hcc, hne.symm], fun j hj1 hj2 => by simp [hj1, hj2], rfl⟩
 
-theorem aliasConstraints_narrow (w : World) (i1 i2 : ObjId) : Narrow w (aliasConstraints w i1 i2).w := by
+
+theorem aliasConstraints_spec {w : World} {i1 i2 : ObjId} (hne : i1 ≠ i2) (ok : (aliasConstraints w i1 i2).err = none) :
+    ((aliasConstraints w i1 i2).w.heap.get i1).con = (aliasConSpec (w.heap.get i1).con (w.heap.get i2).con).1 ∧
+    ((aliasConstraints w i1 i2).w.heap.get i2).con = (aliasConSpec (w.heap.get i1).con (w.heap.get i2).con).2 ∧
+    (∀ j, j ≠ i1 → j ≠ i2 → (aliasConstraints w i1 i2).w.heap.get j = w.heap.get j) ∧
+    (aliasConstraints w i1 i2).w.heap.next = w.heap.next := by
+  rcases aliasConstraints_cases w i1 i2 with h | h
+  · rw [h] at ok; cases ok
+  · rw [h] at ok ⊢; exact aliasConstraintsL_spec hne ok
+
+theorem aliasConstraintsL_val (w : World) (i1 i2 : ObjId) (j : ObjId) : val (aliasConstraintsL w i1 i2).w j = val w j := by
+  have : ∀ (w : World) (i : ObjId) (q : Par) (c : Con), parSetConstraint (w.heap.get i) c = .ok q →
+      ∀ j, ((w.putPar i q).heap.get j).value = (w.heap.get j).value := by
+    intro w i q c hq j
+    simp only [putPar_get]; split
+    · rename_i e; subst e
+      simp only [parSetConstraint] at hq
+      split at hq
+      · cases hq
+      · cases hq; rfl
+    · rfl
+  simp only [aliasConstraintsL, val]
+  split
+  · rfl
+  · split
+    · rfl
+    · rename_i q hq; exact this w i1 q _ hq j
+  · rfl
+  · split
+    · split
+      · rfl
+      · rename_i q2 hq2
+        split
+        · exact this w i2 q2 _ hq2 j
+        · rename_i q1 hq1
+          rw [this _ i1 q1 _ hq1 j, this w i2 q2 _ hq2 j]
+    · rfl
+
+
+theorem aliasConstraintsL_narrow (w : World) (i1 i2 : ObjId) : Narrow w (aliasConstraintsL w i1 i2).w := by
   have put : ∀ (w : World) (i : ObjId) (q : Par) (c : Con), parSetConstraint (w.heap.get i) c = .ok q →
       (w.putPar i q).heap.next = w.heap.next ∧ ∀ j, (w.putPar i q).heap.get j = if j = i then { w.heap.get i with con := some c } else w.heap.get j := by
     intro w i q c hq
@@ -531,7 +576,7 @@ theorem aliasConstraints_narrow (w : World) (i1 i2 : ObjId) : Narrow w (aliasCon
       · cases hq
       · cases hq; rfl
     · rfl
-  simp only [aliasConstraints]
+  simp only [aliasConstraintsL]
   cases h1 : (w.heap.get i1).con with
   | none =>
     cases h2 : (w.heap.get i2).con with
@@ -583,6 +628,16 @@ theorem aliasConstraints_narrow (w : World) (i1 i2 : ObjId) : Narrow w (aliasCon
                 exact hv.2
             · exact hv
       · exact Narrow.refl w
+
+
+theorem aliasConstraints_narrow (w : World) (i1 i2 : ObjId) : Narrow w (aliasConstraints w i1 i2).w := by
+  rcases aliasConstraints_cases w i1 i2 with h | h <;> rw [h]
+  · exact Narrow.refl w
+  · exact aliasConstraintsL_narrow w i1 i2
+
+theorem aliasConstraints_val (w : World) (i1 i2 : ObjId) (j : ObjId) : val (aliasConstraints w i1 i2).w j = val w j := by
+  rcases aliasConstraints_cases w i1 i2 with h | h <;> rw [h]
+  exact aliasConstraintsL_val w i1 i2 j
 
 theorem aliasPairG_narrow (b : Bool) (w : World) (k : Nat) (p1 p2 : String) : Narrow w (aliasPairG b w k p1 p2).w := by
   simp only [aliasPairG]
